@@ -130,10 +130,16 @@ def _module(draw, ctx):
     esc = draw(st.integers(0, 3)) == 0
     tool = draw(st.integers(0, 3)) == 0
     pool = VNAMES + (S.ESCAPED if esc else [])
+    twins = False
     if not tool and draw(st.integers(0, 4)) == 0:
         # names whose underscore-joins coincide (a_b + c vs a + b_c): the reader names
         # expression gates by joining operand names
         pool = list(S.COMPOUND) + ["s", "sel", "sel_a", "s_a", "b_c_d", "a_b_c_d"] + VNAMES[:6]
+        twins = True
+    TW = [(["s", "a_b", "c"], ["s", "a", "b_c"]), (["sel", "a_b", "c"], ["sel_a", "b", "c"]), (["a_b", "c", "b"], ["a", "b_c", "b"]),
+          (["a", "b_c"], ["a_b", "c"]), (["a_b_c", "a"], ["a_b", "c_a"])]
+    twin_pairs = [draw(st.sampled_from(TW)) for _ in range(draw(st.integers(1, 2)))] if twins else []
+    twin_names = list(dict.fromkeys(n for l1, l2 in twin_pairs for n in l1 + l2))
     n_in = draw(st.integers(1, 4))
     n_def = draw(st.integers(1, 8))
     if tool:
@@ -146,8 +152,11 @@ def _module(draw, ctx):
             ctx.count_excluded("F18b", 3)
         fresh = draw(st.lists(st.sampled_from(tpool), min_size=3 * n_def, max_size=3 * n_def, unique=True))
     else:
-        names = draw(st.lists(st.sampled_from(pool), min_size=n_in + 3 * n_def, max_size=n_in + 3 * n_def, unique=True))
-        inputs = names[:n_in]
+        pool2 = [n for n in pool if n not in twin_names]
+        if twins:
+            pool2 = list(dict.fromkeys(pool2 + [n for n in VNAMES[6:40] if n not in twin_names]))
+        names = draw(st.lists(st.sampled_from(pool2), min_size=n_in + 3 * n_def + 4, max_size=n_in + 3 * n_def + 4, unique=True))
+        inputs = twin_names + names[:n_in]
         fresh = names[n_in:]
     avail = list(inputs)
     defined = []
@@ -160,8 +169,14 @@ def _module(draw, ctx):
         if kind == "gate":
             t = draw(st.sampled_from(S.ALL_GATES))
             k = 1 if t in S.UNARY else draw(st.sampled_from([1, 2, 2, 3, 3, 4]))
-            k = min(k, len(avail) + 2)
-            ops = draw(st.lists(st.sampled_from(avail + ["1'b0", "1'b1"]), min_size=k, max_size=k, unique=True))
+            if draw(st.integers(0, 4)) == 0:
+                # the same net several times in one primitive (parity gates: pairs cancel)
+                ops = draw(st.lists(st.sampled_from(avail + ["1'b0", "1'b1"]), min_size=k, max_size=k + 2))
+                if t in S.UNARY:
+                    ops = ops[:1]
+            else:
+                k = min(k, len(avail) + 2)
+                ops = draw(st.lists(st.sampled_from(avail + ["1'b0", "1'b1"]), min_size=k, max_size=k, unique=True))
             ins = [["const", int(o[-1]), o] if o.startswith("1'") else ["id", o] for o in ops]
             out = fresh.pop()
             inst = {"name": f"g{gi}", "out": out, "ins": ins}
@@ -219,6 +234,26 @@ def _module(draw, ctx):
             conns = draw(st.permutations(conns))
             stmts.append({"k": "bb", "t": ti, "insts": [{"name": f"U{n_bb}", "conns": [list(c) for c in conns]}]})
             n_bb += 1
+    if twins:
+        # two expressions of the same shape whose operand names join to the same string
+        for l1, l2 in twin_pairs:
+            shape = draw(st.sampled_from(["tern", "&", "|", "^", "~^", "not"]))
+            for lst in (l1, l2):
+                if shape == "tern" and len(lst) == 3:
+                    e = ["tern", ["id", lst[0]], ["id", lst[1]], ["id", lst[2]]]
+                elif shape == "not":
+                    e = ["bin", "&", ["not", "~", ["id", lst[0]]], ["id", lst[1]]]
+                else:
+                    op = shape if shape != "tern" else "&"
+                    e = ["bin", op, ["id", lst[0]], ["id", lst[1]]]
+                    if len(lst) == 3:
+                        e = ["bin", op, e, ["id", lst[2]]]
+                if not fresh:
+                    continue
+                out = fresh.pop()
+                stmts.insert(draw(st.integers(0, len(stmts))), {"k": "assign", "assigns": [{"lhs": out, "rhs": e}]})
+                defined.append(out)
+                avail.append(out)
     if not defined:
         out = fresh.pop()
         stmts.append({"k": "gate", "t": "buf", "insts": [{"name": f"g{gi}", "out": out, "ins": [["id", inputs[0]]]}]})
